@@ -934,6 +934,75 @@ func feasibleSuccs(pred, b *ssa.BasicBlock) []*ssa.BasicBlock {
 	return b.Succs[1:]
 }
 
+// listElem is one element of a list built up locally by appends, with the conditions under which it is appended.
+type listElem struct {
+	val   ssa.Value
+	conds []condEdge
+}
+
+// listContents: v is a slice built in this function from the empty list by appends outside loops (`xs := make(T, 0, n);
+// xs = append(xs, a); if c { xs = append(xs, b) }`): its elements, each with the conditions under which it was added.
+// ok is false for anything else (a parameter, a list filled in a loop, ...).
+func listContents(v ssa.Value) ([]listElem, bool) {
+	seenApp := map[*ssa.Call]bool{}
+	var out []listElem
+	ok := true
+	seen := map[ssa.Value]bool{}
+	var walk func(v ssa.Value, d int)
+	walk = func(v ssa.Value, d int) {
+		if !ok {
+			return
+		}
+		v = resolve(v)
+		if seen[v] {
+			if _, isPhi := v.(*ssa.Phi); isPhi {
+				return
+			}
+			return
+		}
+		seen[v] = true
+		if d > 12 {
+			ok = false
+			return
+		}
+		if isEmptySliceLit(v) || isNilConst(v) {
+			return
+		}
+		switch x := v.(type) {
+		case *ssa.Phi:
+			if inLoop(x.Block()) {
+				ok = false
+				return
+			}
+			for _, e := range x.Edges {
+				walk(e, d+1)
+			}
+		case *ssa.Call:
+			b, isB := x.Call.Value.(*ssa.Builtin)
+			if !isB || b.Name() != "append" || len(x.Call.Args) != 2 || inLoop(x.Block()) {
+				ok = false
+				return
+			}
+			if !seenApp[x] {
+				seenApp[x] = true
+				els := varargElems(x.Call.Args[1])
+				if len(els) == 0 {
+					ok = false
+					return
+				}
+				for _, e := range els {
+					out = append(out, listElem{resolve(e), dominatingConds(x.Block())})
+				}
+			}
+			walk(x.Call.Args[0], d+1)
+		default:
+			ok = false
+		}
+	}
+	walk(v, 0)
+	return out, ok && len(out) > 0
+}
+
 // enumPaths lists the acyclic paths from the entry of fn to the returns accepted by target, each as the branch
 // conditions taken along it (phi-tests resolved edge by edge, as in reach). complete is false when the limit was hit.
 func enumPaths(fn *ssa.Function, target func(*ssa.Return) bool, limit int) (paths [][]condEdge, complete bool) {
@@ -1255,6 +1324,26 @@ func (w *World) writesOfField(f *types.Var) []fieldWrite {
 				case *ssa.Store:
 					if fv, base, ok := fieldOfAddr(x.Addr); ok && fv == f {
 						out = append(out, fieldWrite{fn, in, x.Val, base, "store"})
+					}
+					// a store through a pointer chosen among several fields (`p := &s.active; if rollout { p = &s.rollout }; *p = lb`)
+					if phi, isPhi := x.Addr.(*ssa.Phi); isPhi {
+						seen := map[*ssa.Phi]bool{}
+						var walk func(p *ssa.Phi)
+						walk = func(p *ssa.Phi) {
+							if seen[p] {
+								return
+							}
+							seen[p] = true
+							for _, e := range p.Edges {
+								if fv, base, ok := fieldOfAddr(e); ok && fv == f {
+									out = append(out, fieldWrite{fn, in, x.Val, base, "store"})
+								}
+								if p2, ok := e.(*ssa.Phi); ok {
+									walk(p2)
+								}
+							}
+						}
+						walk(phi)
 					}
 				case *ssa.MapUpdate:
 					if fv, base, ok := fieldLoad(x.Map); ok && fv == f {
